@@ -1,7 +1,11 @@
-(* C29 - placeholder while the correspondence is being brought up; replaced by the real statements. *)
-From Coq Require Import List ZArith.
-Require Import MTX.Model.C29_Playback.
+(* C29 - Playback list/get return exactly the recorded media in range.
+   Only statements here; every proof is `exact <lemma of Proofs/C29_*.v>`. (get part: in progress) *)
+From Coq Require Import List ZArith Bool.
+Require Import MTX.Model.C29_Playback MTX.Proofs.C29_List.
 Import ListNotations.
-Theorem C29_placeholder : concatenate [] = [].
-Proof. reflexivity. Qed.
-Print Assumptions C29_placeholder.
+Local Open Scope Z_scope.
+
+Theorem C29_list_sorted_disjoint : forall all st en es,
+  rec_ok all -> on_list all st en = LEntries es -> entries_sorted es.
+Proof. exact list_sorted_disjoint. Qed.
+Print Assumptions C29_list_sorted_disjoint.
